@@ -199,3 +199,75 @@ def idx_kind(idx):
         return s + ",int" + ("-" if c["i"] < 0 else "+")
     k = c["k"]
     return s + ",slice" + ("+" if (k is None or k > 0) else "-")
+
+
+# ------------------------------------------------------------------ assignment oracle on plain rows
+def assign_rows(rows, idx, val):
+    """rows after `rows[idx] = val` (val: {"t": scalar|flat|column|ragged, "v": ...}); raises Refused.
+    Returns None when numpy's own broadcasting of a 2-D value onto a 1-D selection would decide."""
+    lens = [len(r) for r in rows]
+    groups = addressed_cells(lens, idx)
+    c = idx.get("c")
+    is_int_r = idx["r"]["t"] == "int"
+    ragged_sel = (c is None and not is_int_r) or (c is not None and c["t"] == "slice" and not is_int_r)
+    cells = [rc for g in groups for rc in g]
+    n = len(cells)
+    t, v = val["t"], val["v"]
+    if t == "scalar":
+        vals = [v] * n
+    elif t == "flat":
+        if len(v) == n:
+            vals = list(v)
+        elif len(v) == 1:
+            vals = list(v) * n
+        else:
+            raise Refused()
+    elif t == "column":
+        if not ragged_sel:
+            if len(v) not in (n, 1):
+                raise Refused()
+            return None
+        if len(v) == 1:
+            vals = list(v) * n
+        elif len(v) != len(groups):
+            raise Refused()
+        else:
+            vals = [x for g, x in zip(groups, v) for _ in g]
+    else:
+        if not ragged_sel or [len(r) for r in v] != [len(g) for g in groups]:
+            raise Refused()
+        vals = [x for r in v for x in r]
+    new = [list(r) for r in rows]
+    for (r, cc), x in zip(cells, vals):
+        new[r][cc] = x
+    return new
+
+
+def value_for_selection(rng, lens, idx, fresh):
+    """a value descriptor fitting (or, rarely, not fitting) the selection; `fresh()` yields new ints"""
+    try:
+        groups = addressed_cells(lens, idx)
+    except Refused:
+        return {"t": "scalar", "v": fresh()}
+    c = idx.get("c")
+    is_int_r = idx["r"]["t"] == "int"
+    ragged_sel = (c is None and not is_int_r) or (c is not None and c["t"] == "slice" and not is_int_r)
+    n = sum(len(g) for g in groups)
+    if is_int_r and c is not None and c["t"] == "int":
+        return {"t": "scalar", "v": fresh()}
+    kinds = ["scalar", "flat"] + (["column", "ragged", "ragged_bad"] if ragged_sel else [])
+    k = rng.choice(kinds)
+    if k == "scalar":
+        return {"t": "scalar", "v": fresh()}
+    if k == "flat":
+        m = n if rng.random() < 0.85 else n + 1
+        return {"t": "flat", "v": [fresh() for _ in range(m)]}
+    if k == "column":
+        m = len(groups) if rng.random() < 0.85 else len(groups) + 1
+        if m == 0:
+            return {"t": "scalar", "v": fresh()}
+        return {"t": "column", "v": [fresh() for _ in range(m)]}
+    ls = [len(g) for g in groups]
+    if k == "ragged_bad" and ls:
+        j = rng.randrange(len(ls)); ls[j] += 1
+    return {"t": "ragged", "v": [[fresh() for _ in range(l)] for l in ls]}
